@@ -231,4 +231,4 @@ impl<FB: FrameBuffer> ZXScreen<FB> {
 
 #[cfg(kani)]
 #[path = "/verif/hooks/core/screen.rs"]
-mod verif_hooks;
+pub(crate) mod verif_hooks;
